@@ -185,6 +185,13 @@ def oracle_items(ctx, n, salt):
             q = r.sample(paras, len(paras))
             variants.append(rg.single(rg.EXT_PRINT + "\n\n".join(q) + "\n", False))
         items.append({"cls": "effectful-init", "variants": variants})
+    for j, paras in enumerate(THROUGH_VALUES):
+        r = vlib.rng(ctx.seed, "%s-values-%d" % (salt, j))
+        variants = []
+        for _ in range(4 if ctx.tier == "quick" else 40):
+            q = r.sample(paras, len(paras))
+            variants.append(rg.single(rg.EXT_PRINT + "\n\n".join(q) + "\n", False))
+        items.append({"cls": "init-through-function-values", "variants": variants, "must_accept": True})
     for i in range(n):
         r = vlib.rng(ctx.seed, "%s-graph-%d" % (salt, i))
         src = cyclic_program(r)
@@ -198,8 +205,39 @@ def oracle_items(ctx, n, salt):
     return items
 
 
+# initialisers that reach a later global through a function VALUE: a direct call, a higher-order call, a
+# closure in a blob field / tuple / returned by a maker / stored in a mutable global, a nested local
+# function, case and if branches.  In every order the program must be accepted and print the same lines.
+THROUGH_VALUES = [
+    ["a :: f()", "f :: fn -> int do\n    ret b + 1\nend", "b :: 2", "start :: fn do\n    print(a)\nend"],
+    ["x :: apply(k)", "apply :: fn g: fn -> int -> int do\n    ret g() + 1\nend",
+     "k :: fn -> int do\n    ret g0 * 2\nend", "g0 :: 21", "start :: fn do\n    print(x)\nend"],
+    ["B :: blob { f: fn -> int }", "bb :: B { f: k }", "x :: bb.f()", "k :: fn -> int do\n    ret g0 + 1\nend",
+     "g0 :: 41", "start :: fn do\n    print(x)\nend"],
+    ["mk :: fn -> fn -> int do\n    ret fn -> int do\n        ret g0 + 5\n    end\nend", "h :: mk()", "x :: h()",
+     "g0 :: 1", "start :: fn do\n    print(x)\nend"],
+    ["t :: (k, 1)", "x :: t[0]()", "k :: fn -> int do\n    ret g0 + 7\nend", "g0 :: 3",
+     "start :: fn do\n    print(x)\nend"],
+    ["g := 1", "set :: fn -> int do\n    g = g0 + 10\n    ret 0\nend", "y :: set()", "g0 :: 5",
+     "start :: fn do\n    print(g)\n    print(y)\nend"],
+    ["h := k0", "k0 :: fn -> int do\n    ret 0\nend", "k :: fn -> int do\n    ret g0\nend",
+     "sw :: fn -> int do\n    h = k\n    ret 1\nend", "y :: sw()", "x :: h() + y", "g0 :: 9",
+     "start :: fn do\n    print(x)\nend"],
+    ["x :: outer()", "outer :: fn -> int do\n    inner :: fn -> int do\n        ret g0 + 100\n    end\n"
+     "    ret inner()\nend", "g0 :: 1", "start :: fn do\n    print(x)\nend"],
+    ["E :: enum\n    A int,\n    B,\nend", "x :: pick(E.A 3)",
+     "pick :: fn e: E -> int do\n    case e do\n        A v -> do\n            ret v + g0\n        end\n"
+     "        else do\n            ret g1\n        end\n    end\n    ret 0\nend", "g0 :: 10", "g1 :: 20",
+     "start :: fn do\n    print(x)\nend"],
+]
+
+
 def judge(it, res):
     base = res[0]
+    if it.get("must_accept"):
+        for k, x in enumerate(res):
+            if x[0] != "OK" or (len(x) > 1 and x[1] not in ("done", "not-run")):
+                return "an initialiser that reaches a later global through a function value: %s" % str(x)[:150], k
     for k, x in enumerate(res[1:], 1):
         if x == base:
             continue
